@@ -35,6 +35,9 @@ type Kill struct {
 func (k Kill) String() string {
 	switch k.Type {
 	case "ack":
+		if k.After < 0 {
+			return "after-boot"
+		}
 		return fmt.Sprintf("after-ack-%d", k.After)
 	case "hook":
 		return fmt.Sprintf("%s@%d", k.Hook, k.N)
@@ -54,6 +57,7 @@ type RunResult struct {
 	Fail     string
 	FailOp   int
 	Lives    map[int]*TSView
+	AckHits  []map[string]int64 // hook hit counters at each acknowledgement
 	BootHits map[string]int64
 	DoneHits map[string]int64
 	BootW    int64
@@ -67,7 +71,9 @@ type RunResult struct {
 	BLog     string
 }
 
-var portCursor int
+// the cursor starts at a per-process offset so that two runs of the check on one machine do
+// not walk the same sequence
+var portCursor = (os.Getpid() * 7919) % 1300
 
 // freePorts hands out listener ports from a range below the ephemeral ports, partitioned by
 // shard: nothing else on the machine (other workers' rigs use listen(:0)) competes for them,
@@ -198,10 +204,12 @@ func parseALog(p string, rr *RunResult) {
 			}
 		case "ack":
 			var v struct {
-				I int `json:"i"`
+				I    int              `json:"i"`
+				Hits map[string]int64 `json:"hits"`
 			}
 			if json.Unmarshal([]byte(rest), &v) == nil && v.I == rr.Acks {
 				rr.Acks++
+				rr.AckHits = append(rr.AckHits, v.Hits)
 			}
 		case "live":
 			var v struct {
@@ -391,7 +399,7 @@ func (hi *histInfo) baselineFor(c *lib.Ctx, n int) *baseline {
 	hi.base[n] = b
 	c.Observe("baseline_runs", 1)
 	rr := runCase(c, hi.h, Kill{Type: "ack", After: n - 1}, true)
-	if rr.infra() || rr.Dump == nil || rr.Dump.Err != "" || rr.Acks != n || rr.Done || liveMismatch(hi.h, hi.sem, rr) != "" {
+	if rr.infra() || rr.Dump == nil || rr.Dump.Err != "" || rr.Acks != n || rr.Done || rr.Fail != "" || liveMismatch(hi.h, hi.sem, rr) != "" {
 		return b
 	}
 	st := statesFor(hi.h, hi.sem, rr.Ports)
@@ -405,7 +413,7 @@ func (hi *histInfo) baselineFor(c *lib.Ctx, n int) *baseline {
 // probe runs the history once without a kill: hook hit counters, write counters, duration,
 // and the validation of the model against the first process' own state.
 func probe(c *lib.Ctx, h *History) *histInfo {
-	hi := &histInfo{h: h, sem: defaultSem()}
+	hi := &histInfo{h: h, sem: defaultSem(), base: map[int]*baseline{}}
 	rr := runCase(c, h, Kill{Type: "none"}, false)
 	hi.dry = rr
 	if !rr.Done {
@@ -445,24 +453,41 @@ func liveMismatch(h *History, sem Sem, rr *RunResult) string {
 	return ""
 }
 
-func enumerate(hi *histInfo) []Kill {
-	var ks []Kill
-	for i := range hi.h.Ops {
-		ks = append(ks, Kill{Type: "ack", After: i})
+// unit m = the kill exactly before operation m (after m acknowledged operations; m = 0:
+// right after boot) followed by every hook hit inside operation m. The first is the
+// baseline for the others, so one worker handles a whole unit. Unit len(ops) is the kill
+// after the last acknowledgement.
+type unit struct {
+	m     int
+	kills []Kill
+}
+
+func enumerate(hi *histInfo) []unit {
+	n := len(hi.h.Ops)
+	us := make([]unit, n+1)
+	for m := 0; m <= n; m++ {
+		us[m] = unit{m: m, kills: []Kill{{Type: "ack", After: m - 1}}}
 	}
 	var names []string
-	for n := range hi.dry.DoneHits {
-		if strings.HasPrefix(n, "db.") || strings.HasPrefix(n, "ts.") {
-			names = append(names, n)
+	for nm := range hi.dry.DoneHits {
+		if strings.HasPrefix(nm, "db.") || strings.HasPrefix(nm, "ts.") {
+			names = append(names, nm)
 		}
 	}
 	sort.Strings(names)
-	for _, n := range names {
-		for k := hi.dry.BootHits[n] + 1; k <= hi.dry.DoneHits[n]; k++ {
-			ks = append(ks, Kill{Type: "hook", Hook: n, N: k})
+	for _, nm := range names {
+		for k := hi.dry.BootHits[nm] + 1; k <= hi.dry.DoneHits[nm]; k++ {
+			m := n - 1
+			for i := 0; i < len(hi.dry.AckHits) && i < n; i++ {
+				if hi.dry.AckHits[i][nm] >= k {
+					m = i
+					break
+				}
+			}
+			us[m].kills = append(us[m].kills, Kill{Type: "hook", Hook: nm, N: k})
 		}
 	}
-	return ks
+	return us
 }
 
 // evaluate decides one executed case.
@@ -474,7 +499,7 @@ func evaluate(c *lib.Ctx, hi *histInfo, k Kill, rr *RunResult) {
 		if rr.Dump != nil {
 			e = rr.Dump.Err
 		}
-		c.Inconclusive(fmt.Sprintf("%s: infrastructure: A=%s B=%s %s %s", tag, rr.AState, rr.BState, rr.Fail, e))
+		inconclusive(c, fmt.Sprintf("%s: infrastructure: A=%s B=%s %s %s", tag, rr.AState, rr.BState, rr.Fail, e))
 		return
 	}
 	if !rr.Booted {
@@ -484,27 +509,27 @@ func evaluate(c *lib.Ctx, hi *histInfo, k Kill, rr *RunResult) {
 	if rr.Fail != "" {
 		// an operation did not get its protocol reply although the process was alive: not this
 		// property's business (the reply paths belong to C01..C09), but never silently passed
-		c.Inconclusive(fmt.Sprintf("%s: %s was not acknowledged: %s", tag, opDesc(h, rr.FailOp), rr.Fail))
+		inconclusive(c, fmt.Sprintf("%s: %s was not acknowledged: %s", tag, opDesc(h, rr.FailOp), rr.Fail))
 		return
 	}
 	killed := !rr.Done
 	if killed && k.Type != "strace" && !strings.HasPrefix(rr.AState, "signal") {
 		// not a SIGKILL: the process left on its own (e.g. os.Exit in Start() when the
 		// teamserver port could not be bound)
-		c.Inconclusive(fmt.Sprintf("%s: child A ended without being killed: %s %s", tag, rr.AState, lastLines(rr.ALog, 6)))
+		inconclusive(c, fmt.Sprintf("%s: child A ended without being killed: %s %s", tag, rr.AState, lastLines(rr.ALog, 6)))
 		return
 	}
 	switch {
 	case !killed && k.Type != "none":
 		c.Observe("kill_point_not_reached", 1)
 	case killed && k.Type == "none":
-		c.Inconclusive(fmt.Sprintf("%s: child A died on its own: %s %s", tag, rr.AState, lastLines(rr.ALog, 8)))
+		inconclusive(c, fmt.Sprintf("%s: child A died on its own: %s %s", tag, rr.AState, lastLines(rr.ALog, 8)))
 		return
 	case killed:
 		c.Observe("killed:"+k.Type, 1)
 	}
 	if d := liveMismatch(h, hi.sem, rr); d != "" {
-		c.Inconclusive(fmt.Sprintf("%s: model does not describe the first process' own state: %s", tag, d))
+		inconclusive(c, fmt.Sprintf("%s: model does not describe the first process' own state: %s", tag, d))
 		return
 	}
 	m := rr.Acks
@@ -532,7 +557,7 @@ func evaluate(c *lib.Ctx, hi *histInfo, k Kill, rr *RunResult) {
 		if rr.Dump != nil {
 			e = rr.Dump.Err
 		}
-		c.Inconclusive(fmt.Sprintf("%s: child B gave no dump: %s %s %s", tag, rr.BState, e, lastLines(rr.BLog, 4)))
+		inconclusive(c, fmt.Sprintf("%s: child B gave no dump: %s %s %s", tag, rr.BState, e, lastLines(rr.BLog, 4)))
 		return
 	}
 	c.Observe("restarts", 1)
@@ -563,87 +588,64 @@ func evaluate(c *lib.Ctx, hi *histInfo, k Kill, rr *RunResult) {
 
 	before := cmpDump(st[m], d, first)
 	report := before
+	key := func(x Diff) string { return x.Sig + "|" + x.Key }
+	if killed && k.Type == "ack" && hi.base != nil {
+		// a kill exactly between two operations is the baseline for the kill points inside
+		// the next operation
+		bl := &baseline{ok: true, diffs: map[string]bool{}}
+		for _, x := range before {
+			bl.diffs[key(x)] = true
+		}
+		hi.base[m] = bl
+	}
 	if killed && m < len(h.Ops) && k.Type != "ack" {
 		c.Observe("in_flight:"+h.Ops[m].K, 1)
 		after := cmpDump(st[m+1], d, first)
-		key := func(x Diff) string { return x.Sig + "|" + x.Key }
-		inAfter := map[string]bool{}
-		for _, x := range after {
-			inAfter[key(x)] = true
-		}
-		inBefore := map[string]bool{}
-		for _, x := range before {
-			inBefore[key(x)] = true
-		}
-		var common, resB, resA []Diff
-		for _, x := range before {
-			if inAfter[key(x)] {
-				common = append(common, x)
-			} else {
-				resB = append(resB, x)
-			}
-		}
-		for _, x := range after {
-			if !inBefore[key(x)] {
-				resA = append(resA, x)
-			}
-		}
-		// Which of the two is it? Differences of the fidelity classes (a stored value that
-		// comes back transformed) exist independently of the in-flight operation and must not
-		// decide; everything else (existence, liveness, links, keys, a field holding another
-		// recorded value) does.
-		// Likewise an acknowledged, still active agent that is missing: no operation, applied
-		// or not, makes a registered agent vanish, so against the "not applied" state it is a
-		// loss of its own (against the "applied" state a missing agent does decide: the
-		// in-flight registration / revival did not happen).
-		strict := func(ds []Diff, notApplied bool) (n int) {
+		// A difference of the fidelity classes (a stored value that comes back transformed)
+		// never decides whether the in-flight operation was applied.
+		strict := func(ds []Diff) (n int) {
 			for _, x := range ds {
-				if fidelityClass(x.Sig) || (notApplied && strings.HasPrefix(x.Sig, "agent:lost")) {
-					continue
+				if !fidelityClass(x.Sig) {
+					n++
 				}
-				n++
 			}
 			return
 		}
-		sB, sA := strict(resB, true), strict(resA, false)
-		minus := func(ds []Diff, b *baseline) (out []Diff) {
+		minus := func(ds []Diff, bl *baseline) (out []Diff) {
 			for _, x := range ds {
-				if !b.diffs[key(x)] {
+				if !bl.diffs[key(x)] {
 					out = append(out, x)
 				}
 			}
 			return
 		}
 		verdict := ""
+		var newB, newA []Diff
 		switch {
-		case sB == 0 && (sA > 0 || len(resB) <= len(resA)):
+		case strict(before) == 0:
 			verdict = "not-applied"
-		case sA == 0:
+		case strict(after) == 0:
 			verdict = "applied"
 		default:
-			// Both candidates leave differences of substance. Before calling the state torn,
-			// subtract what a kill exactly before (after) the in-flight operation leaves
-			// behind anyway: defects that do not depend on this kill point.
+			// "Not applied" means: the recovered state is what a kill exactly before the
+			// in-flight operation leaves behind (its differences from the model are the
+			// defects that exist anyway); "applied" likewise with a kill exactly after it.
 			b0 := hi.baselineFor(c, m)
 			if !b0.ok {
-				c.Inconclusive(fmt.Sprintf("%s: baseline run (kill after %d acknowledged operations) failed", tag, m))
+				inconclusive(c, fmt.Sprintf("%s: baseline run (kill after %d acknowledged operations) failed", tag, m))
 				return
 			}
-			if rB := minus(resB, b0); strict(rB, true) == 0 {
+			if newB = minus(before, b0); strict(newB) == 0 {
 				verdict = "not-applied"
 				break
-			} else {
-				resB = rB
 			}
 			b1 := hi.baselineFor(c, m+1)
 			if !b1.ok {
-				c.Inconclusive(fmt.Sprintf("%s: baseline run (kill after %d acknowledged operations) failed", tag, m+1))
+				inconclusive(c, fmt.Sprintf("%s: baseline run (kill after %d acknowledged operations) failed", tag, m+1))
 				return
 			}
-			if rA := minus(resA, b1); strict(rA, false) == 0 {
+			if newA = minus(after, b1); strict(newA) == 0 {
 				verdict = "applied"
-			} else {
-				resA = rA
 			}
 		}
 		switch verdict {
@@ -654,16 +656,30 @@ func evaluate(c *lib.Ctx, hi *histInfo, k Kill, rr *RunResult) {
 			c.Observe("in_flight_applied", 1)
 			report = after
 		default:
-			report = common
-			// neither the state before nor the state after the in-flight operation
+			// neither: report the torn state; differences both baselines share are reported
+			// under their own signatures
 			c.Observe("in_flight_torn", 1)
+			report = nil
+			inNewB := map[string]bool{}
+			for _, x := range newB {
+				inNewB[key(x)] = true
+			}
+			for _, x := range before {
+				if !inNewB[key(x)] {
+					report = append(report, x)
+				}
+			}
 			cls := opClass(h, st[m], m)
 			var obs []string
-			for _, x := range resB {
-				obs = append(obs, "vs not applied: "+x.What+" ["+x.Sig+"]")
+			for _, x := range newB {
+				if !fidelityClass(x.Sig) {
+					obs = append(obs, "vs not applied: "+x.What+" ["+x.Sig+"]")
+				}
 			}
-			for _, x := range resA {
-				obs = append(obs, "vs applied: "+x.What+" ["+x.Sig+"]")
+			for _, x := range newA {
+				if !fidelityClass(x.Sig) {
+					obs = append(obs, "vs applied: "+x.What+" ["+x.Sig+"]")
+				}
 			}
 			c.Violation("torn:"+cls, fmt.Sprintf("killed during %s (%s): the recovered state is neither the state before nor the state after that operation", cls, k.hookClass()),
 				wit("state after the acknowledged operations, the in-flight operation applied completely or not at all", obs))
@@ -723,13 +739,13 @@ func run(c *lib.Ctx) {
 	if c.Replay != nil {
 		var w Witness
 		if err := json.Unmarshal(c.Replay, &w); err != nil || w.History == nil {
-			c.Inconclusive("replay: witness has no history")
+			inconclusive(c, "replay: witness has no history")
 			return
 		}
 		hi := probe(c, w.History)
 		c.Eval()
 		if !hi.ok {
-			c.Inconclusive("replay: " + hi.reason)
+			inconclusive(c, "replay: " + hi.reason)
 			return
 		}
 		c.Cur("c10-case", mustJSON(map[string]any{"history": w.History, "kill": w.Kill}))
@@ -738,6 +754,9 @@ func run(c *lib.Ctx) {
 		return
 	}
 
+	if c.Shard == 0 {
+		sweepStale()
+	}
 	nHist := 6
 	groups := 1
 	if c.Thorough() {
@@ -757,6 +776,7 @@ func run(c *lib.Ctx) {
 		}
 	}
 	complete := true
+	unitNo := 0
 	for hidx := 0; hidx < nHist; hidx++ {
 		if hidx%groups != group {
 			continue
@@ -770,40 +790,57 @@ func run(c *lib.Ctx) {
 		if !hi.ok {
 			complete = false
 			if pos == 0 {
-				c.Inconclusive(hi.reason)
+				inconclusive(c, hi.reason)
 			}
 			continue
 		}
-		kills := enumerate(hi)
+		units := enumerate(hi)
 		if pos == 0 {
 			c.Observe("histories", 1)
 			for _, op := range h.Ops {
 				c.Observe("op:"+op.K, 1)
 			}
-			c.Observe("kill_points_enumerated", int64(len(kills)))
+			for _, u := range units {
+				c.Observe("kill_points_enumerated", int64(len(u.kills)))
+			}
 		}
+		var extra []Kill
 		if c.Thorough() {
 			// (3) strace-injected SIGKILL at sampled write-family calls, (4) timed SIGKILLs
 			r := rand.New(rand.NewSource(c.Seed*31 + int64(hidx)))
 			if hi.dry.DoneW > hi.dry.BootW && straceOK() {
 				for j := 0; j < 4; j++ {
-					kills = append(kills, Kill{Type: "strace", When: hi.dry.BootW + 1 + r.Int63n(hi.dry.DoneW-hi.dry.BootW)})
+					extra = append(extra, Kill{Type: "strace", When: hi.dry.BootW + 1 + r.Int63n(hi.dry.DoneW-hi.dry.BootW)})
 				}
 			}
 			if span := hi.dry.TotalMs; span > 400 {
 				for j := 0; j < 4; j++ {
-					kills = append(kills, Kill{Type: "timer", Ms: 300 + r.Intn(span-300)})
+					extra = append(extra, Kill{Type: "timer", Ms: 300 + r.Intn(span-300)})
 				}
 			}
 		}
-		for j, k := range kills {
-			if j%gsize != pos {
-				continue
-			}
+		do := func(k Kill) {
 			c.Cur("c10-case", mustJSON(map[string]any{"history": h, "kill": k}))
 			c.Eval()
 			rr := runCase(c, h, k, true)
+			inc := nInconclusive
 			evaluate(c, hi, k, rr)
+			if nInconclusive != inc && (k.Type == "ack" || k.Type == "hook") {
+				complete = false // a kill point of the enumeration was not decided
+			}
+		}
+		for _, u := range units {
+			if unitNo%gsize == pos {
+				for _, k := range u.kills {
+					do(k)
+				}
+			}
+			unitNo++
+		}
+		for j, k := range extra {
+			if j%gsize == pos {
+				do(k)
+			}
 		}
 		c.Checkpoint()
 	}
@@ -829,6 +866,27 @@ func scratchRoot() string {
 	return ""
 }
 
+// sweepStale removes run directories that a watchdog-killed worker left behind (older than
+// an hour, so never one of a run in progress).
+func sweepStale() {
+	root := scratchRoot()
+	if root == "" {
+		root = os.TempDir()
+	}
+	ents, err := os.ReadDir(root)
+	if err != nil {
+		return
+	}
+	for _, e := range ents {
+		if !e.IsDir() || !strings.HasPrefix(e.Name(), "c10-") {
+			continue
+		}
+		if fi, err := e.Info(); err == nil && time.Since(fi.ModTime()) > time.Hour {
+			os.RemoveAll(filepath.Join(root, e.Name()))
+		}
+	}
+}
+
 var straceChecked, straceWorks bool
 
 func straceOK() bool {
@@ -838,6 +896,13 @@ func straceOK() bool {
 		straceWorks = err == nil
 	}
 	return straceWorks
+}
+
+var nInconclusive int
+
+func inconclusive(c *lib.Ctx, what string) {
+	nInconclusive++
+	c.Inconclusive(what)
 }
 
 func mustJSON(v any) []byte {
